@@ -2,7 +2,7 @@
 
 Engine B, two parts:
   codec  every list of lines of length 0..n over a pool of 10 line shapes (empty, blank, tab, '.', ' .', '..',
-         plain, indented, trailing blank, non-ASCII): parse_multiline_as_lines(format_multiline_lines(L)) == L,
+         plain, indented, trailing blank, non-ASCII; thorough: 14 shapes, n = 6, and lengths 7..8 over a core of 5): parse_multiline_as_lines(format_multiline_lines(L)) == L,
          the str-level pair parse_multiline/format_multiline, and License.from_str(License.to_str());
   doc    header variants x every sequence of 0..3 paragraphs from a pool of 35 (30 Files paragraphs = 3 pattern
          lists x 2 copyright texts x 5 licences, and 5 stand-alone licences), built through the public API,
@@ -14,7 +14,17 @@ Engine B, two parts:
          characters with and without hyphens, 40 one-character patterns; copyright and licence texts with a
          200-character line and with 30 lines, a 90-character synopsis; a header with 5 Upstream-Contact entries, a
          150-character Source and a 30-line licence.
+  weak   licence texts with white-space-only lines (blanks, tabs) in the middle - outside the statement's exact round trip:
+         same paragraph sequence, every other value unchanged, the text back with these lines empty, second dump identical.
+  kinds  the dumped text is re-parsed as Copyright(list of lines with newlines) everywhere above.  A subset of the documents
+         (minimal and full header x no / each single paragraph; minimal header x 35 two-paragraph sequences; the long-text
+         paragraphs in their three contexts and ten long Files lists) is re-parsed in every other documented way of handing
+         text to Copyright(...): lines without their newlines, a tuple, a generator (with / without newlines), io.StringIO, a
+         text-mode file object, the whole str, the whole text as UTF-8 bytes, UTF-8 bytes lines / io.BytesIO with
+         encoding=, bytes lines / io.BytesIO in another 8-bit encoding with encoding=.  Same paragraph descriptions, same second dump; and the second dump is
+         also taken with dump(f=io.StringIO()), which must write the same text.
 """
+import io
 import itertools
 import logging
 
@@ -29,20 +39,33 @@ RULE = ("Engine B: states = prefixes of line lists / paragraph sequences generat
         "mixing Files and License paragraphs or carrying a licence text with empty/indented/dot-like lines; codec sweep: "
         "one state / transition / trace per line list built around one swept character; long documents: one state / "
         "transition per paragraph appended, one trace per document; non-trivial = the document carries a Files value "
-        "longer than 72 characters, a text line of >= 200 characters, a text of >= 30 lines or >= 5 contacts")
+        "longer than 72 characters, a text line of >= 200 characters, a text of >= 30 lines or >= 5 contacts; input kinds: "
+        "the way the dumped text is handed back to Copyright(...) is one more choice below the document: one state / "
+        "transition / trace per (document, kind), non-trivial by the document's own rule")
 BUDGET = {"quick": 240, "thorough": 3000}
 
 FORMAT = "https://www.debian.org/doc/packaging-manuals/copyright-format/1.0/"
 
 
 def bounds(tier):
-    return {"codec_pool": 10, "codec_len": "0..%d" % _codec_n(tier),
+    return {"codec_pool": "10 line shapes" if tier == "quick" else "14 line shapes (the 10 + '. ', '.x', '  .', '<tab>.')",
+            "codec_len": "0..%d" % _codec_n(tier) + (
+                "; lengths %d..%d over the core pool of %d shapes (empty, '.', plain, indented, ' .')"
+                % (_codec_n(tier) + 1, CODEC_CORE_N, len(CODEC_CORE)) if tier == "thorough" else ""),
             "codec_sweep": "one character at a time: c = each of %d characters (printable ASCII U+0020..U+007E, %d "
                            "non-ASCII) in the line lists %r, lists outside the codec domain left out"
                            % (len(sweep_chars()), len(SWEEP_NON_ASCII), [[l.replace("%", "<c>") for l in t] for t in SWEEP_LISTS]),
             "doc_pool": "30 Files paragraphs (3 pattern lists x 2 copyrights x 5 licences, one whose text starts with an empty line) + 5 stand-alone licences",
-            "doc_sequences": "0..3 paragraphs",
-            "doc_long": long_bounds(),
+            "doc_sequences": "0..3 paragraphs" + ("; 4 paragraphs (35^4 sequences) under the headers #%s (minimal, Source + two "
+                                                  "contacts, Upstream-Name + License, full)" % (HEADERS_LEN4,) if tier == "thorough" else ""),
+            "doc_long": long_bounds(tier),
+            "doc_input_kinds": {"kinds": list(DOC_KINDS),
+                                "documents": "minimal and full header x (no paragraph, each of the 35 paragraphs); minimal header x 35 "
+                                             "two-paragraph sequences (paragraph i followed by paragraph (7i+3) mod 35); the 11 "
+                                             "long-text paragraphs in their 3 contexts; 10 long Files lists",
+                                "checked": "paragraph descriptions of the re-parsed document, second dump == first dump, "
+                                           "dump(f=StringIO) writes the same text",
+                                "other_encoding": "first of %s that can write the document" % (OTHER_ENCODINGS,)},
             "doc_headers": ("24 header variants (Upstream-Name, Source, Upstream-Contact 0/1/2 entries, License) x "
                             "sequences of 0..1 paragraphs; minimal and full header x sequences of 2..3 paragraphs"
                             if tier == "quick" else "24 header variants x every sequence")}
@@ -70,11 +93,31 @@ def assumptions():
             "open - only what the strict re-parse returns and the identity of the second dump are compared",
             "long documents use the minimal header (and one long header) with the long paragraph alone, after one "
             "ordinary Files paragraph, or before one stand-alone License paragraph; they are not multiplied with the "
-            "0..3-paragraph sequences"]
+            "0..3-paragraph sequences",
+            "weak domain (white-space-only lines): the statement promises the exact round trip of a licence text only when no "
+            "line is white-space-only.  For texts that do have lines made of blanks and tabs the check demands what the format "
+            "can keep (a white-space-only continuation line would end the paragraph) and what the unchanged library does: the "
+            "document still dumps and re-parses in strict mode to the same paragraph sequence, every other value is unchanged, "
+            "the text comes back with each white-space-only line EMPTY (or kept: both sides are compared after emptying such "
+            "lines), and the second dump is identical.  Only blanks and tabs "
+            "are used: \\x0b / \\x0c cannot be inside a line (splitlines cuts there) and for U+00A0 / U+3000 a writer that keeps "
+            "them would not be wrong.  Copyright texts are not part of this family: they are handed over in deb822 continuation "
+            "form, where an empty line is already written ' .' by the caller (a white-space-only continuation line in a "
+            "Copyright value is written as it is and cuts the paragraph: 'Files paragraph missing License field' on re-parse)",
+            "input kinds: Copyright documents 'sequence: Sequence of lines, e.g. a list of strings or a file-like object' and "
+            "'encoding: Encoding to use, in case input is raw byte strings' (the underlying Deb822.iter_paragraphs also takes the "
+            "whole text as one str); all of them read the same document on the unchanged library.  Lines 'without newline' are "
+            "the dump split at '\\n'.  encoding= is only passed together with bytes input.  Copyright.dump documents f= 'a "
+            "file-like object opened in text mode'"]
 
 
 def _codec_n(tier):
-    return 4 if tier == "quick" else 5
+    return 4 if tier == "quick" else 6
+
+
+CODEC_CORE = [0, 2, 3, 4, 9]          # indices into codec_pool: "", ".", plain, indented, " ."
+CODEC_CORE_N = 8                      # thorough: lengths n+1..8 over the core pool
+HEADERS_LEN4 = [0, 10, 13, 23]        # thorough: headers under which every 4-paragraph sequence is run
 
 
 # ------------------------------------------------------------------------------------------------ pools
@@ -85,9 +128,12 @@ def letters(seed):
     return a, e
 
 
-def codec_pool(seed):
+def codec_pool(seed, tier="quick"):
     a, e = letters(seed)
-    return ["", " ", ".", a, " " + a, a + " ", "..", e, "\t", " ."]
+    pool = ["", " ", ".", a, " " + a, a + " ", "..", e, "\t", " ."]
+    if tier == "thorough":
+        pool += [". ", "." + a, "  .", "\t."]       # dot + blank, dot + text, two blanks + dot, tab + dot
+    return pool
 
 
 def doc_pools(seed):
@@ -117,7 +163,9 @@ def doc_pools(seed):
 
 # ------------------------------------------------------------------------------------------------ long values
 
-LONG_GROUPS = ["files-hyphen9", "files-other", "texts", "header"]
+LONG_GROUPS = ["files-hyphen9", "files-other", "texts", "header", "weak-ws"]
+WEAK_WS = [" ", "\t", " \t ", "  ", "\t\t"]
+LONG_GROUPS_THOROUGH = ["files-hyphen9-more", "files-two-hyphens", "files-slash-star", "files-under-long-headers"]
 _REALISTIC = ["debian/*", "doc/*.html", "src/lib-core/*.c", "src/lib-core/*.h", "tests/data-files/*",
               "third-party/zlib-ng/*", "po/*.po"]
 
@@ -141,6 +189,21 @@ def long_files(seed, group):
             for o in (0, 1, 2, 3, 4, 5, 6, 7, 8, 10):
                 out.append((["x" * o] if o else []) + [hy] * k)
         assert sorted({len(" ".join(f)) for f in out}) == [9] + list(range(11, 129)) + [130]
+    elif group == "files-hyphen9-more":
+        # the same family, 13..24 copies: joined lengths from 129 up to 250
+        for k in range(13, 25):
+            for o in (0, 1, 2, 3, 4, 5, 6, 7, 8, 10):
+                out.append((["x" * o] if o else []) + [hy] * k)
+    elif group == "files-two-hyphens":
+        th = hy[:2] + "-" + hy[2:]            # 10 characters, two hyphens
+        for k in range(1, 17):
+            for o in range(0, 11):
+                out.append((["x" * o] if o else []) + [th] * k)
+    elif group == "files-slash-star":
+        # directory globs of 7 characters: a slash and a star on every column up to 150
+        for k in range(1, 19):
+            for o in range(0, 8):
+                out.append((["y" * o] if o else []) + ["ab/cd/*"] * k)
     else:
         for k in range(1, 7):
             for o in (0, 3, 7, 11, 15, 19):
@@ -186,8 +249,23 @@ def long_headers(seed):
             {"name": "x", "source": "http://e/" + "long-path/" * 14 + e, "contact": contacts, "license": lics[2]}]
 
 
-def long_bounds():
-    return {"files_lists": {g: len(long_files(0, g)) for g in LONG_GROUPS[:2]},
+def long_bounds(tier="quick"):
+    more = {}
+    if tier == "thorough":
+        more = {"thorough_families": {
+            "files-hyphen9-more": "13..24 copies of the 9-character pattern after the same lead-ins (joined length up to 250)",
+            "files-two-hyphens": "1..16 copies of a 10-character pattern with two hyphens after a lead-in of 0..10 characters",
+            "files-slash-star": "1..18 copies of 'ab/cd/*' after a lead-in of 0..7 characters",
+            "files-under-long-headers": "every hyphen9 list (1..12 copies) alone under the two long headers",
+            "lists": {g: len(long_files(0, g)) for g in LONG_GROUPS_THOROUGH[:3]}}}
+    return dict(more, **_long_bounds())
+
+
+def _long_bounds():
+    return {"weak_domain": "licence texts with a white-space-only line (%r) in the middle, twice in a row before an indented line, "
+                           "and as first text line; as licence of a Files paragraph, of a stand-alone License paragraph (each "
+                           "followed by / following another paragraph) and of the header" % (WEAK_WS,),
+            "files_lists": {g: len(long_files(0, g)) for g in LONG_GROUPS[:2]},
             "files_list_joined_length": "9, every value in 11..128, 130 (hyphen9 family: the copies start at every column modulo "
                                         "10), up to 152 (single long pattern with a neighbour)",
             "files_contexts": "minimal header; the paragraph alone, after one ordinary Files paragraph, before one License paragraph",
@@ -212,7 +290,22 @@ def long_cases(seed, group):
     text_paras = ([["F", ["*"], cp, dpool[1][3]] for cp in cps] + [["F", ["*"], "2020 A", l] for l in lics]
                   + [["L", l] for l in lics])
     cases = []
-    if group in ("files-hyphen9", "files-other"):
+    if group == "weak-ws":
+        # licence texts with white-space-only lines (outside the exact-equality domain, see assumptions): the paragraph with
+        # such a text is followed / preceded by another paragraph, so that a text that cuts its paragraph is seen
+        a, e = letters(seed)
+        other_f, other_l = dpool[0], dpool[31]
+        for ws in WEAK_WS:
+            for t in ("a\n" + ws + "\nb", "line1\n" + ws + "\n" + ws + "\n  indented\nlast " + e, ws + "\nafter a blank first line"):
+                for p in (["F", ["*"], "2020 A", ["X", t]], ["L", ["Y", t]]):
+                    for paras in ([p, other_l], [other_f, p]):
+                        cases.append({"part": "doc", "header": minimal, "paras": paras, "weak": True})
+                cases.append({"part": "doc", "header": dict(minimal, license=["H", t]), "paras": [other_f, other_l], "weak": True})
+    elif group == "files-under-long-headers":
+        for h in long_headers(seed):
+            for f in long_files(seed, "files-hyphen9"):
+                cases.append({"part": "doc", "header": h, "paras": [["F", f, "2020 A", ["GPL-2+", ""]]]})
+    elif group.startswith("files-"):
         for f in long_files(seed, group):
             for paras in contexts(["F", f, "2020 A", ["GPL-2+", ""]]):
                 cases.append({"part": "doc", "header": minimal, "paras": paras})
@@ -233,6 +326,8 @@ def long_features(case):
     f = set()
     texts = []
     h = case["header"]
+    if case.get("weak"):
+        f.add("white-space-only line in a licence text")
     if h["contact"] and len(h["contact"]) >= 5:
         f.add("contacts>=5")
     if h["license"]:
@@ -324,11 +419,15 @@ def _codec_sweep_unit(part, u):
 def units(tier, seed):
     out = []
     n = _codec_n(tier)
-    pool = codec_pool(seed)
+    pool = codec_pool(seed, tier)
     out.append({"part": "codec", "pool": pool, "prefix": None, "n": 1})          # lengths 0..1
     split = 1 if tier == "quick" else 2
     for pre in itertools.product(range(len(pool)), repeat=split):
         out.append({"part": "codec", "pool": pool, "prefix": list(pre), "n": n})  # lengths 2..n with this prefix
+    if tier == "thorough":
+        core_pool = [pool[i] for i in CODEC_CORE]
+        for pre in itertools.product(range(len(core_pool)), repeat=2):
+            out.append({"part": "codec", "pool": core_pool, "prefix": list(pre), "n": CODEC_CORE_N, "min": n + 1})
     sc = sweep_chars()
     for i in range(0, len(sc), SWEEP_CHUNK):
         out.append({"part": "codec-sweep", "chars": sc[i:i + SWEEP_CHUNK]})
@@ -338,22 +437,32 @@ def units(tier, seed):
     for h in hsel:
         for first in range(len(dpool)):
             out.append({"part": "doc", "pool": dpool, "headers": headers, "hidx": [h], "first": first})
+    if tier == "thorough":
+        for h in HEADERS_LEN4:
+            for first in range(len(dpool)):
+                for second in range(len(dpool)):
+                    out.append({"part": "doc", "pool": dpool, "headers": headers, "hidx": [h], "first": first, "second": second})
     out += [{"part": "doc-long", "group": g} for g in LONG_GROUPS]
+    if tier == "thorough":
+        out += [{"part": "doc-long", "group": g} for g in LONG_GROUPS_THOROUGH]
+    out += [{"part": "doc-kinds", "group": g} for g in KIND_GROUPS]
     return out
 
 
 def unit_cost(u, tier):
     if u["part"] == "doc-long":
         return 400 * 600
+    if u["part"] == "doc-kinds":
+        return 70 * 11 * 600
     if u["part"] == "codec-sweep":
         return len(u["chars"]) * 5 * 12
     if u["part"] == "codec":
         if u["prefix"] is None:
             return 11 * 10
-        return (10 ** (u["n"] - len(u["prefix"]))) * 12
+        return (len(u["pool"]) ** (u["n"] - len(u["prefix"]))) * 12
     if u["first"] is None:
         return len(u["hidx"]) * 36 * 450
-    return 1261 * 450
+    return (1225 if "second" in u else 1261) * 450
 
 
 # ------------------------------------------------------------------------------------------------ real side
@@ -482,7 +591,7 @@ def _codec_unit(part, u):
     else:
         pre = [pool[i] for i in u["prefix"]]
         lists = []
-        for k in range(max(0, 2 - len(pre)), u["n"] - len(pre) + 1):
+        for k in range(max(0, u.get("min", 2) - len(pre)), u["n"] - len(pre) + 1):
             for t in itertools.product(pool, repeat=k):
                 lists.append(pre + list(t))
     for lines in lists:
@@ -570,9 +679,21 @@ def _first_difference(want, got):
 
 def run_doc_case(case):
     """-> (violations, outcome class)."""
+    bad, cls = _run_doc_case(case)
+    if case.get("weak"):
+        bad = [("weak-domain/" + b[0],) + tuple(b[1:]) for b in bad]
+    return bad, cls
+
+
+def _run_doc_case(case):
     C = _copyright()
     header, paras = case["header"], case["paras"]
-    want = model_description(header, paras)
+    if case.get("weak"):
+        # weak domain: a licence text with white-space-only lines reads back with these lines EMPTY (everything else as given)
+        want = model_description(dict(header, license=_weak_licence(header["license"])),
+                                 [[p[0], p[1], p[2], _weak_licence(p[3])] if p[0] == "F" else [p[0], _weak_licence(p[1])] for p in paras])
+    else:
+        want = model_description(header, paras)
     try:
         doc = C.Copyright()
         if header["name"] is not None:
@@ -588,7 +709,7 @@ def run_doc_case(case):
                 doc.add_files_paragraph(C.FilesParagraph.create(list(p[1]), p[2], C.License(p[3][0], p[3][1])))
             else:
                 doc.add_license_paragraph(C.LicenseParagraph.create(C.License(p[1][0], p[1][1])))
-        built = describe(C, doc)
+        built = _weak_description(describe(C, doc)) if case.get("weak") else describe(C, doc)
     except Exception as e:
         return [("doc/build-raises/" + type(e).__name__, "document built", repr(e))], "raises"
     if built != want:
@@ -600,22 +721,152 @@ def run_doc_case(case):
         return [("doc/dump-raises/" + type(e).__name__, "text", repr(e))], "raises"
     if not isinstance(text, str):
         return [("doc/dump-type", "str", type(text).__name__)], "differs"
+    kind = case.get("kind", "")
+    pre = "in-%s/" % kind if kind else ""       # a failure that needs one input kind is a different bug
     try:
-        doc2 = C.Copyright(text.splitlines(True), strict=True)
-        again = describe(C, doc2)
+        doc2 = parse_doc(C, text, kind)
+        again = _weak_description(describe(C, doc2)) if case.get("weak") else describe(C, doc2)
     except Exception as e:
-        return [("doc/reparse-raises/" + type(e).__name__, "strict parse of %r succeeds" % (text,), repr(e))], "raises"
+        return [(pre + "doc/reparse-raises/" + type(e).__name__, "strict parse of %r succeeds" % (text,), repr(e))], "raises"
     if again != want:
         d = _first_difference(want, again)
-        return [("doc/reparse/" + d[0], d[1], "%s  (dump: %r)" % (d[2], text))], "differs"
+        return [(pre + "doc/reparse/" + d[0], d[1], "%s  (dump: %r)" % (d[2], text))], "differs"
     try:
         text2 = doc2.dump()
     except Exception as e:
-        return [("doc/redump-raises/" + type(e).__name__, "text", repr(e))], "raises"
+        return [(pre + "doc/redump-raises/" + type(e).__name__, "text", repr(e))], "raises"
     if text2 != text:
-        return [("doc/redump", text, text2)], "differs"
+        return [(pre + "doc/redump", text, text2)], "differs"
+    if kind:
+        f = io.StringIO()
+        try:
+            r = doc2.dump(f=f)
+        except Exception as e:
+            return [(pre + "doc/redump-to-file-raises/" + type(e).__name__, "text written", repr(e))], "raises"
+        if r is not None or f.getvalue() != text:
+            return [(pre + "doc/redump-to-file", "None returned, %r written" % (text,), "%r returned, %r written" % (r, f.getvalue()))], "differs"
     kinds = "".join(p[0] for p in model_sequence(paras))
     return [], "doc:H" + kinds
+
+
+# ---- the documented ways of handing text to Copyright(...)
+
+DOC_KINDS = ["lines-nonl", "tuple-lines", "generator", "generator-nonl", "StringIO", "textfile", "str", "bytes", "bytes-lines",
+             "BytesIO", "bytes-lines-other-encoding", "BytesIO-other-encoding"]
+OTHER_ENCODINGS = ["latin-1", "iso-8859-5", "euc-jp"]
+KIND_GROUPS = ["single", "pairs", "long"]
+
+
+def other_encoding(text):
+    for enc in OTHER_ENCODINGS:
+        try:
+            text.encode(enc)
+            return enc
+        except UnicodeEncodeError:
+            pass
+    raise AssertionError("no 8-bit encoding for %r" % (text,))
+
+
+def _generate(lines):
+    for line in lines:
+        yield line
+
+
+def parse_doc(C, text, kind):
+    """Copyright(...) of a document text handed over in the given way ('' = the list of lines with newlines)"""
+    if kind == "":
+        return C.Copyright(text.splitlines(True), strict=True)
+    if kind == "lines-nonl":
+        return C.Copyright(text.split("\n")[:-1], strict=True)
+    if kind == "tuple-lines":
+        return C.Copyright(tuple(text.splitlines(True)), strict=True)
+    if kind == "generator":
+        return C.Copyright(_generate(text.splitlines(True)), strict=True)
+    if kind == "generator-nonl":
+        return C.Copyright(_generate(text.split("\n")[:-1]), strict=True)
+    if kind == "StringIO":
+        return C.Copyright(io.StringIO(text), strict=True)
+    if kind == "textfile":
+        return C.Copyright(io.TextIOWrapper(io.BytesIO(text.encode("utf-8")), encoding="utf-8", newline=""), strict=True)
+    if kind == "str":
+        return C.Copyright(text, strict=True)
+    if kind == "bytes":
+        return C.Copyright(text.encode("utf-8"), encoding="utf-8", strict=True)
+    if kind == "bytes-lines":
+        return C.Copyright(text.encode("utf-8").splitlines(True), encoding="utf-8", strict=True)
+    if kind == "BytesIO":
+        return C.Copyright(io.BytesIO(text.encode("utf-8")), encoding="utf-8", strict=True)
+    if kind == "bytes-lines-other-encoding":
+        enc = other_encoding(text)
+        return C.Copyright(text.encode(enc).splitlines(True), encoding=enc, strict=True)
+    if kind == "BytesIO-other-encoding":
+        enc = other_encoding(text)
+        return C.Copyright(io.BytesIO(text.encode(enc)), enc, True)
+    raise AssertionError(kind)
+
+
+def kind_documents(seed, group):
+    """-> the (header, paragraph list) documents of one group of the input-kind part"""
+    dpool, headers = doc_pools(seed)
+    out = []
+    if group == "single":
+        for h in (headers[0], headers[-1]):
+            out += [(h, [])] + [(h, [p]) for p in dpool]
+    elif group == "pairs":
+        out += [(headers[0], [dpool[i], dpool[(7 * i + 3) % len(dpool)]]) for i in range(len(dpool))]
+    else:
+        out += [(c["header"], c["paras"]) for c in long_cases(seed, "texts")]
+        out += [(c["header"], c["paras"]) for c in long_cases(seed, "files-hyphen9")[210:240:3]]
+    return out
+
+
+def _doc_kinds_unit(part, u, seed):
+    docs = kind_documents(seed, u["group"])
+    case = None
+    for header, paras in docs:
+        part.states += 1
+        for kind in DOC_KINDS:
+            case = {"part": "doc", "header": header, "paras": paras, "kind": kind}
+            bad, cls = run_doc_case(case)
+            part.states += 1
+            part.transitions += 1
+            part.traces += 1
+            part.evaluations += 1
+            part.outcomes["read as %s: %s" % (kind, "as built" if not bad else cls)] += 1
+            part.extra["documents read as " + kind] += 1
+            if long_features(case) or _doc_nontrivial(paras):
+                part.nontrivial += 1
+            for sig, e, o in bad:
+                part.violation(sig, case, e, o, rank=5)
+            part.max_depth = max(part.max_depth, len(paras))
+    part.sample(case)
+    return part
+
+
+def _weak_text(t):
+    return "\n".join("" if (l and l.strip(" \t") == "") else l for l in t.split("\n"))
+
+
+def _weak_licence(lic):
+    if not lic:
+        return lic
+    return [lic[0], _weak_text(lic[1])]
+
+
+def _weak_description(desc):
+    """an observed description with the white-space-only lines of its licence texts emptied: in the weak domain a reader that
+    keeps such a line and one that returns it empty are both right"""
+    out = []
+    for p in desc:
+        q = []
+        for f in p:
+            if isinstance(f, tuple) and f[0] == "license-text" and isinstance(f[1], str):
+                f = (f[0], _weak_text(f[1]))
+            elif isinstance(f, tuple) and f[0] == "license" and f[1] is not None and isinstance(f[1][1], str):
+                f = (f[0], (f[1][0], _weak_text(f[1][1])))
+            q.append(f)
+        out.append(tuple(q))
+    return out
 
 
 def _doc_nontrivial(paras):
@@ -633,6 +884,9 @@ def _doc_unit(part, u):
     if u["first"] is None:
         seqs = [[]] + [[i] for i in range(len(pool))]
         part.states += 1
+    elif "second" in u:
+        f, g = u["first"], u["second"]
+        seqs = [[f, g, j, k] for j in range(len(pool)) for k in range(len(pool))]
     else:
         f = u["first"]
         seqs = [[f, j] for j in range(len(pool))] + [[f, j, k] for j in range(len(pool)) for k in range(len(pool))]
@@ -665,6 +919,8 @@ def run_unit(u, tier, seed):
         return _codec_sweep_unit(part, u)
     if u["part"] == "doc-long":
         return _doc_long_unit(part, u, seed)
+    if u["part"] == "doc-kinds":
+        return _doc_kinds_unit(part, u, seed)
     return _doc_unit(part, u)
 
 
